@@ -127,7 +127,8 @@ def step(kind):
         mod_changed = sorted(k for k in set(env.vars) | set(mod_before) if env.vars.get(k) is not mod_before.get(k))
         other_changed = (other.attrs.get("run_experiment") is not other_fn) or \
             not isinstance(other.attrs.get("_checksum"), SHex)
-        return {"res": res, "before": before, "after": after, "class_changed": class_changed,
+        return {"res": res, "before": before, "after": after, "inst": inst if kind != "init" or res[0] == "return" else None,
+                "class_changed": class_changed,
                 "module_changed": mod_changed, "other_changed": other_changed, "t_old": t_old, "t_new": t_new.term}
     return entry
 
@@ -177,7 +178,19 @@ def analyse(kind, timeout_ms):
         def bad(why, scenario):
             out["witnesses"].append({"kind": "lifecycle", "scenario": scenario, "why": why, "plain": ""})
         # no write outside self
-        foreign = [e for e in p.effects if not (e[0] == "attr-store" and e[2] in ("_checksum", "run_experiment"))]
+        own = lambda e: e[0] == "attr-store" and (snap.get("inst") is None or e[1] is snap.get("inst"))
+        extra = sorted({e[2] for e in p.effects if own(e) and e[2] not in ("_checksum", "run_experiment")})
+        foreign = [e for e in p.effects if not own(e)]
+        if extra:
+            # additional per-instance state: the invariant I (checksum, function) does not describe it, so this one-step
+            # analysis cannot decide the property any more; a bounded search over operation sequences is asked to find a
+            # history on which the evaluator stops behaving like a fresh one (replay kind lifecycle_search)
+            failing = res[0] == "raise"
+            out["witnesses"].append({"kind": "lifecycle_search", "scenario": "extra-state",
+                                     "why": "%s keeps additional per-instance state %s%s" % (
+                                         kind, extra, " and writes it on a path that raises" if failing else ""),
+                                     "plain": ""})
+            out["extra_state"] = extra
         if snap["class_changed"] or snap["module_changed"] or snap["other_changed"] or foreign:
             bad("%s writes outside the instance: class %s module %s other-instance %s effects %s" % (
                 kind, snap["class_changed"], snap["module_changed"], snap["other_changed"],
@@ -282,6 +295,9 @@ def main(tier):
             summary = "%s | %s" % (w["why"], o.get("observed", ""))
             if o.get("reproduced"):
                 rep.violation(payload, summary)
+            elif w["kind"] == "lifecycle_search":
+                rep.inconc("the evaluator keeps per-instance state that the inductive invariant does not cover (%s); the bounded "
+                           "search over operation sequences found no misbehaving history" % w["why"])
             else:
                 rep.inconc("witness did not reproduce: " + summary)
     coverage = {
